@@ -129,6 +129,7 @@ class Ctx:
         self.step_out = {}  # sid -> materialised step
         self.saved_states = {}
         self.culprits = []
+        self.class_first = {}
         self.last_registry_sig = None
         self.flat_checked = set()
         self._flat_skip = False
@@ -350,6 +351,8 @@ class Ctx:
         if prev["state"] != now_state:
             self.stats["repeat_with_different_global_state"] += 1
         self.stats["repeats_compared"] += 1
+        if str(prev.get("where", "")).startswith("fault-free twin"):
+            self.stats["repeat_after_fault"] += 1
         if prev["out"] != out:
             from .calls import tags
             keyed = "keyed" in tags(step["fn"])
@@ -708,6 +711,19 @@ class Ctx:
             # fingerprint is taken by the observer snapshot that follows the step (never by using the operator here)
             self.pool[step["slot"]] = Entry(op, None, None, structural, step["recipe"], step["id"])
             self.stats["ops_made:" + type(op).__name__.split("[")[0]] += 1
+            # reach probes: order of first instantiation per concrete class (pure attribute walk, no product)
+            cname = type(op).__name__
+            has = bool(rm.walk_arrays(op))
+            if cname not in self.class_first:
+                self.class_first[cname] = has
+                self.stats["distinct_concrete_classes_created"] += 1
+            elif self.class_first[cname] != has:
+                self.stats["class_first_arrayless_then_arrays" if has else "class_first_arrays_then_arrayless"] += 1
+            k = step["recipe"].get("k")
+            if k == "to":
+                self.stats["to_dtype_move"] += 1
+            elif k == "ann":
+                self.stats["annotate_then_check_original"] += 1
         return op
 
     def op_call(self, step, out_step):
@@ -737,6 +753,10 @@ class Ctx:
             self._pending_res = None
         self.events.append(("call", sid, step["fn"], outcome[0], jhash(outcome[1:]), len(cur_used)))
         self.stats["calls:" + step["fn"]] += 1
+        if "alg" not in step.get("args", {}) and step["fn"] in ("inv", "solve", "pinv_solve", "logdet", "slogdet", "unary",
+                                                                "unary_apply", "eig", "svd", "diag_default",
+                                                                "trace_default", "eigmax_d", "eigmin_d", "rsolve"):
+            self.stats["default_Auto_paths"] += 1
         self.sched_sig.append("call:%s:%s:%s" % (step["fn"], outcome[0], ",".join(sorted(set(
             a[0] for a in cur_used.values())))))
         if "shim" in tags(step["fn"]):
